@@ -56,6 +56,8 @@ var reqAlphabet = []reqLetter{
 		return &actions.GenerateRequestAction{HeadersToSet: h("g", "5"), HeadersToRemove: []string{"z"}}
 	}},
 	{"ModHdr{}", func() actions.ReqLunarAction { return &actions.ModifyHeadersAction{HeadersToSet: h()} }},
+	// the same header name in another spelling: a different map key, both edits are carried
+	{"ModHdr{H:6}", func() actions.ReqLunarAction { return &actions.ModifyHeadersAction{HeadersToSet: h("H", "6")} }},
 }
 
 type respLetter struct {
@@ -77,6 +79,9 @@ var respAlphabet = []respLetter{
 	}},
 	{"Retry{r:1,h:9}", func() actions.RespLunarAction {
 		return &actions.RetryRequestAction{HeadersToSet: h("r", "1", "h", "9")}
+	}},
+	{"ModResp{H:6,b4,202}", func() actions.RespLunarAction {
+		return &actions.ModifyResponseAction{HeadersToSet: h("H", "6"), Body: "b4", Status: 202}
 	}},
 }
 
